@@ -23,7 +23,7 @@ def graph_traces(g, max_len, label=None):
 
 def jvm_env(quick):
     """JVM settings for the many short TLC runs of this family (a shared machine: few GC threads; quick tier: C1 only)"""
-    return {"JAVA_TOOL_OPTIONS": "-XX:ParallelGCThreads=2" + (" -XX:TieredStopAtLevel=1" if quick else "")}
+    return {"JAVA_TOOL_OPTIONS": "-XX:ParallelGCThreads=2 -Xss64m" + (" -XX:TieredStopAtLevel=1" if quick else "")}
 
 
 def validate_jobs(jobs, spec_dir, procs=None, timeout=1800, quick=True):
@@ -67,8 +67,8 @@ def validate_jobs(jobs, spec_dir, procs=None, timeout=1800, quick=True):
             else:
                 suspects.append((j, i))
     with ThreadPoolExecutor(max_workers=procs) as ex:
-        diag = list(ex.map(lambda ji: run(jobs[ji[0]][0], jobs[ji[0]][1], [jobs[ji[0]][2][ji[1]]], True), suspects[:48]))
-    for (j, i), res in zip(suspects[:48], diag):
+        diag = list(ex.map(lambda ji: run(jobs[ji[0]][0], jobs[ji[0]][1], [jobs[ji[0]][2][ji[1]]], True), suspects[:12]))
+    for (j, i), res in zip(suspects[:12], diag):
         vals = tlc.printed_values(res.out)
         if res.error:
             outs[j].model_errors.append((i, res.error, res.error_name, res.trace))
@@ -77,7 +77,7 @@ def validate_jobs(jobs, spec_dir, procs=None, timeout=1800, quick=True):
             continue
         at = [v[2] for v in vals if len(v) == 3 and v[0] == "AT"]
         outs[j].rejected[i] = (max(at) - 1) if at else 0
-    for (j, i) in suspects[48:]:
+    for (j, i) in suspects[12:]:
         outs[j].rejected[i] = -1
     return outs
 
